@@ -7,9 +7,12 @@ import Ohsl.Driver.Cx
 import Ohsl.Driver.Mat
 import Ohsl.Driver.Solve
 import Ohsl.Driver.Vec
+import Ohsl.Driver.Poly
+import Ohsl.Driver.Tri
+import Ohsl.Driver.Band
 namespace Ohsl
 
-def executors : List (String → P (Option String)) := [DrvCx.exec, DrvMat.exec, DrvSolve.exec, DrvVec.exec]
+def executors : List (String → P (Option String)) := [DrvCx.exec, DrvMat.exec, DrvSolve.exec, DrvVec.exec, DrvPoly.exec, DrvTri.exec, DrvBand.exec]
 
 def exec (op : String) : P String := do
   for e in executors do
